@@ -141,3 +141,25 @@ Print Assumptions C03_collection_exec_constructor_establishes_progress_invariant
 Theorem C03_collection_bucket_table_ok : forall log2 max, 1 <= max <= 128 -> bucket_table_okb log2 max = true.
 Proof. exact bucket_table_ok_upto_128. Qed.
 Print Assumptions C03_collection_bucket_table_ok.
+
+(* the same progress for the collection over the address-ordered list (array_pool; node_pool with the double-free check): histories
+   of node requests and releases never reach an assertion, the constructor establishes the invariant *)
+Theorem C03_ordered_collection_exec_node_histories_never_stuck : forall log2 os s sp, OCPR s sp -> OExt log2 s -> onode_history_ok log2 s sp os ->
+  exists s' tr sp', oc_run log2 s os = Some (s', tr) /\ PoolSpecProofs.run sp tr = Some sp' /\ OCPR s' sp' /\ OExt log2 s'.
+Proof. exact ocoll_node_history_progress. Qed.
+Print Assumptions C03_ordered_collection_exec_node_histories_never_stuck.
+
+Theorem C03_ordered_collection_exec_constructor_establishes_progress_invariant : forall log2 k fence max bs answer s evs,
+  oc_construct log2 k fence max bs answer = Some (s, true, evs) -> bucket_table_okb log2 max = true -> 0 <= bs < 2^64 -> 0 <= fence -> OExt log2 s.
+Proof. exact oc_construct_ext. Qed.
+Print Assumptions C03_ordered_collection_exec_constructor_establishes_progress_invariant.
+
+(* the premises are met by a real history: the collection of the C01 example (identity buckets, max 64, block 4096 at 65600) satisfies
+   the invariant after construction, and the seven node requests of that example form a history the theorem covers *)
+Example C03_collection_progress_nonvacuous :
+  match uc_construct false AGrow 0 64 4096 (Some 65600) with
+  | Some (s, true, evs) => bucket_table_okb false 64 = true /\
+      uc_run false s [CAllocNode 8 None; CAllocNode 16 None; CAllocNode 64 None; CTryAllocNode 24; CAllocNode 8 None] <> None
+  | _ => False
+  end.
+Proof. vm_compute. split; [reflexivity|discriminate]. Qed.
